@@ -93,7 +93,9 @@ def code_schema():
         Field("py", Int, args=[Argument("theArg", named_in, python_name="the_arg", default_value={"some_field": 1, "other_py": 4}),
                                Argument("inner", inner, default_value={"n": 2, "c": 1, "s": "x", "l": [1, 2], "again": None, "cs": [1, "g"], "snake_py": 9})]),
         Field("side", side, args=[Argument("s", side, default_value="RIGHT"), Argument("ss", NonNullType(ListType(NonNullType(side))), default_value=["LEFT", "RIGHT"]),
-                                  Argument("o", sided, default_value={"sd": "RIGHT", "sl": ["LEFT"]})]),
+                                  Argument("o", sided, default_value={"sd": "RIGHT", "sl": ["LEFT"]}),
+                                  # (keys in another order than the fields are declared in: the text is written in field order either way)
+                                  Argument("o2", sided, default_value={"sl": ["UP"], "sd": "LEFT"})]),
         Field("f", String, description="desc", deprecation_reason="old", args=[
             Argument("a", inner, default_value={"n": 1, "c": "g", "s": "x", "l": [], "again": {"n": 2, "c": 1, "s": "", "l": [3], "again": None, "cs": [], "snake_py": 3}, "cs": [(0, 0, 255)], "snake_py": 4}),
             Argument("e", NonNullType(ListType(color)), default_value=[1, "g"]),
